@@ -251,8 +251,13 @@ TEXT = {
                       "one path - the new graph's k-mers are exactly those of the non-censored nodes, each once; the payload is the reduction "
                       "folded seed, left path, right path (buildNode_payload); fix_exts is exact for every validity filter (fixExts_exact, an "
                       "invariant over the in-place sequential update) so no extension of the returned graph dangles (C09_no_dangling). "
-                      "Maximality of the paths (components of surviving good links), no-panic on valid graphs, idempotence and equality with "
-                      "direct compression are executable predicates on the crate's result (components by label propagation).",
+                      "C09_char: for EVERY graph satisfying the node-level invariant GInv (palindromic end k-mers only in single-k-mer nodes), "
+                      "every censor set and symmetric join, compress_graph RETURNS (none of its six panics can fire: unique extension exists, "
+                      "resolves to a valid node, orientation is consistent, an admissible target records at least one extension on the entered "
+                      "side), its walks are the abstract walks over the good-link relation of the pruned graph (a symmetric relation, proved from "
+                      "reciprocity), and two non-censored nodes share a new node IFF good links connect them - the new nodes are exactly the "
+                      "maximal unbranched paths. C09_char_of_built: this applies to every graph compress_kmers builds. Idempotence and "
+                      "equality with direct compression are executable predicates on the crate's result.",
         "design_ref": "DESIGN.md section 6, C09",
         "level_note": COMMON_NOTE + "Partial: C09_char and corollaries by execution.",
         "technique": "Lean 4 proof (invariants of the well-founded walk and of the in-place fix_exts fold, overlap algebra of merged sequences) + differential correspondence with executable predicates",
